@@ -234,6 +234,64 @@ static char forked(const std::function<char()>& f, int secs)
 	return c;
 }
 
+// runs the calls in ONE forked child (a fork of the sanitised process is expensive), each under its own budget: the child
+// writes one character per finished call; when a call overruns, the child is killed ('T') and a new child continues
+// with the remaining calls
+static string forkedSeq(const vector<std::function<char()>>& fs, int secsEach)
+{
+	string out;
+	size_t next = 0;
+	while (next < fs.size()) {
+		int fd[2];
+		if (pipe(fd) != 0) { out += string(fs.size() - next, 'C'); break; }
+		fflush(stdout);
+		unsigned rem = alarm(0);
+		pid_t pid = fork();
+		if (pid == 0) {
+			close(fd[0]);
+			prctl(PR_SET_PDEATHSIG, SIGKILL);
+			signal(SIGALRM, SIG_DFL);
+			for (size_t i = next; i < fs.size(); ++i) {
+				alarm(secsEach + 2);
+				char c = fs[i]();
+				ssize_t r = write(fd[1], &c, 1);
+				(void)r;
+			}
+			_exit(0);
+		}
+		close(fd[1]);
+		bool restart = false;
+		while (next < fs.size()) {
+			fd_set rs;
+			FD_ZERO(&rs);
+			FD_SET(fd[0], &rs);
+			struct timeval tv;
+			tv.tv_sec = secsEach;
+			tv.tv_usec = 0;
+			int r = select(fd[0] + 1, &rs, nullptr, nullptr, &tv);
+			char c;
+			if (r > 0) {
+				ssize_t n = read(fd[0], &c, 1);
+				if (n == 1) { out += c; ++next; continue; }
+				out += 'C'; ++next;        // the child died in this call
+				restart = true;
+				break;
+			}
+			kill(pid, SIGKILL);
+			out += 'T'; ++next;
+			restart = true;
+			break;
+		}
+		(void)restart;
+		close(fd[0]);
+		kill(pid, SIGKILL);
+		int st;
+		waitpid(pid, &st, 0);
+		alarm(rem);
+	}
+	return out;
+}
+
 static string opIncl(const vector<string>& a)
 {
 	TA A = buildTA(parseTA(a.at(0))), B = buildTA(parseTA(a.at(1)));
@@ -241,9 +299,13 @@ static string opIncl(const vector<string>& a)
 	v += inclOne(A, B, false, false, false, false);
 	v += inclOne(A, B, false, false, false, true);
 	// the downward algorithms are exponential by design: each runs under its own budget ('T' = not judged)
-	for (int k = 0; k < 6; ++k) {
-		bool rec = k >= 2, opt = k >= 4, sim = k & 1;
-		v += forked([&]() { return inclOne(A, B, true, rec, opt, sim); }, g_selTimeout);
+	{
+		vector<std::function<char()>> calls;
+		for (int k = 0; k < 6; ++k) {
+			bool rec = k >= 2, opt = k >= 4, sim = k & 1;
+			calls.push_back([&A, &B, rec, opt, sim]() { return inclOne(A, B, true, rec, opt, sim); });
+		}
+		v += forkedSeq(calls, g_selTimeout);
 	}
 	// default overload (no parameters)
 	char d;
@@ -958,40 +1020,48 @@ static char guardedVerdict(F f)
 }
 
 // bddincl <A> <B> : every implemented selection of both encodings
+template <class F>
+static std::function<char()> verdictFn(F f)
+{
+	return [f]() -> char {
+		try { return f() ? '1' : '0'; }
+		catch (const NotImplementedException&) { return 'N'; }
+		catch (const std::exception&) { return 'E'; }
+	};
+}
+
 static string opBddIncl(const vector<string>& a)
 {
 	TAT ta = parseTA(a.at(0)), tb = parseTA(a.at(1));
 	string v;
-	{	// top-down, raw operands (each loaded with its own dictionary: overlapping numbers)
-		AutBase::StateDict d1, d2;
-		TD A = loadBdd<TD>(ta, d1), B = loadBdd<TD>(tb, d2);
-		v += guardedVerdict([&]() { return TD::CheckInclusion(A, B, mkParam(2 | 8)); });          // down rec
-		v += guardedVerdict([&]() { return TD::CheckInclusion(A, B, mkParam(2 | 8 | 4)); });      // down rec opt
-		v += '-';                                                                                 // (no default overload in this encoding)
+	// top-down on raw operands (each loaded with its own dictionary: overlapping numbers); bottom-up; top-down with the
+	// simulation the bottom-up path computes for the sanitised operands – all in one child, each call under its own budget
+	AutBase::StateDict d1, d2, d3, d4;
+	TD At = loadBdd<TD>(ta, d1), Bt = loadBdd<TD>(tb, d2);
+	BU A = loadBdd<BU>(ta, d3), B = loadBdd<BU>(tb, d4);
+	vector<std::function<char()>> calls;
+	calls.push_back(verdictFn([&]() { return TD::CheckInclusion(At, Bt, mkParam(2 | 8)); }));          // down rec
+	calls.push_back(verdictFn([&]() { return TD::CheckInclusion(At, Bt, mkParam(2 | 8 | 4)); }));      // down rec opt
+	calls.push_back([]() { return '-'; });                                                              // (no default overload)
+	calls.push_back(verdictFn([&]() { return BU::CheckInclusion(A, B, mkParam(0)); }));                // up
+	calls.push_back(verdictFn([&]() { return BU::CheckInclusion(A, B, mkParam(2 | 8 | 16)); }));       // down rec + sim
+	calls.push_back(verdictFn([&]() { return BU::CheckInclusion(A, B); }));                            // default overload
+	for (unsigned opt = 0; opt < 2; ++opt) {
+		calls.push_back(verdictFn([&A, &B, opt]() {
+			BU s(A), b(B);
+			StateType states = AutBase::SanitizeAutsForInclusion(s, b);
+			BU u = BU::UnionDisjointStates(s, b);
+			SimParam sp;
+			sp.SetRelation(SimParam::e_sim_relation::TA_DOWNWARD);
+			sp.SetNumStates(states);
+			AutBase::StateDiscontBinaryRelation sim = u.ComputeSimulation(sp);
+			TD std_ = s.GetTopDownAut(), btd = b.GetTopDownAut();
+			InclParam ip = mkParam(2 | 8 | 16 | (opt ? 4 : 0));
+			ip.SetSimulation(&sim);
+			return TD::CheckInclusion(std_, btd, ip);
+		}));
 	}
-	{	// bottom-up
-		AutBase::StateDict d1, d2;
-		BU A = loadBdd<BU>(ta, d1), B = loadBdd<BU>(tb, d2);
-		v += guardedVerdict([&]() { return BU::CheckInclusion(A, B, mkParam(0)); });              // up
-		v += guardedVerdict([&]() { return BU::CheckInclusion(A, B, mkParam(2 | 8 | 16)); });     // down rec + sim
-		v += guardedVerdict([&]() { return BU::CheckInclusion(A, B); });                          // default overload
-		// top-down with simulation: the relation the bottom-up path computes for the sanitised operands
-		for (unsigned opt = 0; opt < 2; ++opt) {
-			v += guardedVerdict([&]() {
-				BU s(A), b(B);
-				StateType states = AutBase::SanitizeAutsForInclusion(s, b);
-				BU u = BU::UnionDisjointStates(s, b);
-				SimParam sp;
-				sp.SetRelation(SimParam::e_sim_relation::TA_DOWNWARD);
-				sp.SetNumStates(states);
-				AutBase::StateDiscontBinaryRelation sim = u.ComputeSimulation(sp);
-				TD std_ = s.GetTopDownAut(), btd = b.GetTopDownAut();
-				InclParam ip = mkParam(2 | 8 | 16 | (opt ? 4 : 0));
-				ip.SetSimulation(&sim);
-				return TD::CheckInclusion(std_, btd, ip);
-			});
-		}
-	}
+	v = forkedSeq(calls, g_selTimeout);
 	return "v=" + v;
 }
 
@@ -1323,9 +1393,9 @@ static char inclWord(const TA& a, const TA& b, unsigned w)
 
 static string inclAllSels(const TA& a, const TA& b)
 {
-	string v;
-	for (unsigned w : META_SELS) v += inclWord(a, b, w);
-	return v;
+	vector<std::function<char()>> calls;
+	for (unsigned w : META_SELS) calls.push_back([&a, &b, w]() { return inclWordDirect(a, b, w); });
+	return forkedSeq(calls, g_selTimeout);
 }
 
 static size_t numStates(const TA& a) { return a.GetUsedStates().size(); }
